@@ -222,12 +222,12 @@ theorem step_fixed_no_panic (s : St) (a : Step) : (step true s a).isPanic = fals
     split
     · rename_i h; cases h
     · rfl
-    · rfl
+    · repeat' split
+      all_goals rfl
   | scanPop o =>
     simp only [step]
-    split
-    · split <;> rfl
-    · rfl
+    repeat' split
+    all_goals rfl
   | emptyResetInflight => simp only [step]; split <;> rfl
   | emptyResetDeferred => simp only [step]; split <;> rfl
   | emptyRest => simp only [step]; split <;> rfl
@@ -527,7 +527,10 @@ theorem step_indexOK (s s' : St) (a : Step) (ok : IndexOK s.h) (h : step true s 
     split at h
     · cases h
     · rename_i h1 hr; cases h; exact peekAndShift_indexOK _ _ _ ok hr
-    · rename_i h1 o hr; cases h; exact peekAndShift_indexOK _ _ _ ok hr
+    · rename_i h1 o hr
+      have hk := peekAndShift_indexOK _ _ _ ok hr
+      repeat' split at h
+      all_goals (cases h; exact hk)
   | scanPop o =>
     simp only [step] at h
     repeat' split at h
